@@ -189,31 +189,53 @@ pub fn shapes(args: &Args) -> SubResult {
     }
     res.bound = format!("all {} look-up graphs on 1..3 scripted assets (per ordered pair: none / get_cached look-up / (forward only) load), self-loops and cycles included; each loaded, then a leaf edit and a script touch are notified and hot_reload is called twice; one child process per shape", all.len());
     res.rule = "exhaustive over shapes; each executed on the real crate under detsched in a child process; oracle = child exits normally (no stack overflow / abort), no deadlock, plus the C05/C06 pass oracles; distinct = distinct (canonical state, observations)".into();
+    // burst shapes: one reload pass that loads many assets which are not cached yet (an index
+    // whose list grew): the reloader registers each of them with itself while it is busy
+    let burst_sizes: Vec<usize> = if args.thorough() { vec![40, 300, 1500] } else { vec![40, 300] };
+    for n in &burst_sizes {
+        all.push(vec![format!("BURST:{n}")]);
+    }
     let total = all.len();
     let dir = std::env::temp_dir();
     vcommon::run_cases(args, res, total, std::time::Duration::from_secs(600), |idx, res| {
         let scripts = &all[idx];
+        let burst: Option<usize> = scripts[0].strip_prefix("BURST:").and_then(|x| x.parse().ok());
         let n = scripts.len();
         let mut files = vec!["l0.l=1".to_string()];
-        for (i, s) in scripts.iter().enumerate() {
-            files.push(format!("n{}.n={s}", i + 1));
+        let mut leaves = vec!["l0".to_string()];
+        if let Some(k) = burst {
+            files.push("n1.n=L:l0".into());
+            for i in 0..k {
+                files.push(format!("a{i}.l={i}"));
+                leaves.push(format!("a{i}"));
+            }
+        } else {
+            for (i, s) in scripts.iter().enumerate() {
+                files.push(format!("n{}.n={s}", i + 1));
+            }
         }
         let cfg = crate::hr::HCfg {
             ctor: "hot".into(),
             seed: (idx as u64 % 2) * 5,
             with_other: false,
-            leaves: vec!["l0".into()],
+            leaves: if burst.is_some() { vec!["l0".into(), "a0".into(), "a1".into()] } else { leaves.clone() },
             nodes: (1..=n).map(|i| format!("n{i}")).collect(),
             dirs: vec![],
             files,
             check_c05: true,
             check_c06: true,
             check_c10: false,
-            check_ledger: true,
+            check_ledger: burst.is_none(),
             check_presence: false,
         };
         let mut ops: Vec<String> = (1..=n).map(|i| format!("load N n{i}")).collect();
-        ops.extend(["put l0.l 11", "ev F:l0.l", "hr", "ev F:n1.n", "hr"].iter().map(|s| s.to_string()));
+        if let Some(k) = burst {
+            let script: Vec<String> = (0..k).map(|i| format!("L:a{i}")).collect();
+            ops.push(format!("put n1.n {}", script.join(" ")));
+            ops.extend(["ev F:n1.n", "hr", "put a0.l 77", "ev F:a0.l", "hr"].iter().map(|s| s.to_string()));
+        } else {
+            ops.extend(["put l0.l 11", "ev F:l0.l", "hr", "ev F:n1.n", "hr"].iter().map(|s| s.to_string()));
+        }
         let inp = dir.join(format!("shape-{}-{idx}.in.json", std::process::id()));
         let outp = dir.join(format!("shape-{}-{idx}.out.json", std::process::id()));
         std::fs::write(&inp, serde_json::to_vec(&json!({"cfg": cfg, "ops": ops})).unwrap()).unwrap();
